@@ -97,6 +97,8 @@ def run(ctx: common.Ctx):
         "AssumeNonNegative is not an admissible tag here (a user promise lowering exploits)",
     ]
     ctx.lean_obligations("PtProofs.C02", THEOREMS)
+    from .c01 import THEOREMS_KERNEL
+    ctx.lean_obligations("PtProofs.C01", THEOREMS_KERNEL)
     nprog = 600 if ctx.thorough else 90
     nvar = 6 if ctx.thorough else 3
     nprng = np.random.default_rng(ctx.seed * 17 + 7)
